@@ -22,6 +22,8 @@
 (* A time label is [w, d, b, ph]: weight w[t]/d of every SOURCE time point *)
 (* (a source slice has one weight 1; a bin is the average of its members), *)
 (* b the requested bin (the 'bins' descriptor) and ph the 'phase' value.   *)
+(* The numeric time descriptors 'time' and 'lat' are functions of w and d  *)
+(* (TimeQ, LatQ), so a bin's numeric descriptors are means by construction.*)
 (* rows/cols/tims are ghost labels: every user descriptor is a fixed       *)
 (* function of them (RowVal, ColVal, TLVal), so "keeps its descriptor      *)
 (* values" is "the descriptor columns read off the real object equal the   *)
@@ -39,7 +41,8 @@ EXTENDS Integers, Sequences, FiniteSets, TLC, SequencesExt, Functions, Json
 
 CONSTANTS Sources,   \* set of encoded sources kind*10000 + NO*100 + NC*10 + NT
                      \*   kind 1 = Dataset, 2 = TemporalDataset ('time' only), 3 = TemporalDataset ('time','phase'),
-                     \*   4 = Dataset and 5 = TemporalDataset ('time') that also carry 'flag' and 'mark' (missing values)
+                     \*   4 = Dataset and 5 = TemporalDataset ('time') that also carry 'flag' and 'mark' (missing values),
+                     \*   6 = TemporalDataset ('time', 'lat', 'phase')
           MaxObj,    \* heap slots
           MaxRows, MaxCols, MaxTims,   \* growth guards
           MaxDen,    \* cap on the denominator of bin weights (nested binning)
@@ -72,16 +75,18 @@ GcdTo(s, i) == IF i = 0 THEN 0 ELSE GCD(s[i], GcdTo(s, i - 1))
 Cond(o)  == 1 + (o % 2)           \* 'cond'  : 2,1,2,1,...   duplicates, not sorted
 Sess(o)  == (o + 1) \div 2        \* 'sess'  : 1,1,2,2,...
 Roi(c)   == 1 + (c % 2)           \* 'roi'   : 2,1,2
-Phase(t) == 1 + (t % 2)           \* 'phase' : 2,1,2,1
+Phase(t) == 1 + (t % 2)           \* 'phase' : 2,1,2,1      a LABEL (string-valued in every flavour)
+Lat(t)   == (t - 2) * (t - 2)     \* 'lat'   : 1,0,1,4      a second NUMERIC time descriptor, duplicates
 \* observation descriptors with MISSING entries (None / NaN in the real object), sources of kind 4, 5:
 Missing == -1
 Flag(o)  == IF o % 2 = 0 THEN 1 ELSE Missing           \* 'flag' : -,1,-,1   one distinct value besides missing
 Mark(o)  == IF o % 3 = 0 THEN Missing ELSE o % 3       \* 'mark' : 1,2,-,1   two distinct values besides missing
 MissKeys == {"flag", "mark"}
 
-OKeysAll == {"obs", "cond", "sess", "time", "phase", "bins", "flag", "mark"}
-CKeysAll == {"chan", "roi", "time", "phase", "bins"}
-TKeysAll == {"time", "phase", "bins"}
+OKeysAll == {"obs", "cond", "sess", "time", "lat", "phase", "bins", "flag", "mark"}
+CKeysAll == {"chan", "roi", "time", "lat", "phase", "bins"}
+TKeysAll == {"time", "lat", "phase", "bins"}
+RatKey(k) == k \in {"time", "lat"}        \* numeric time descriptors: rational values, averaged by bin_time
 DKeys    == OKeysAll \cup CKeysAll
 IntKey(k) == k \in {"obs", "cond", "sess", "chan", "roi", "phase", "flag", "mark"}
 Absent(k) == IF IntKey(k) THEN 0 ELSE <<>>
@@ -90,11 +95,12 @@ NoDD == [k \in DKeys |-> Absent(k)]
 (* ---------------- time labels ------------------------------------------- *)
 NoT == [w |-> <<>>, d |-> 0, b |-> <<>>, ph |-> 0]
 SrcTL(t, nt, kind) == [w |-> [u \in 1..nt |-> IF u = t THEN 1 ELSE 0], d |-> 1, b |-> <<>>,
-                       ph |-> IF kind = 3 THEN Phase(t) ELSE 0]
+                       ph |-> IF kind \in {3, 6} THEN Phase(t) ELSE 0]
 TimeQ(tl)   == Norm(SumTo([t \in 1..Len(tl.w) |-> tl.w[t] * t], Len(tl.w)), tl.d)          \* 'time' value
 TimeTok(tl) == Norm(SumTo([t \in 1..Len(tl.w) |-> tl.w[t] * 2^(t - 1)], Len(tl.w)), tl.d)  \* token part
+LatQ(tl)    == Norm(SumTo([t \in 1..Len(tl.w) |-> tl.w[t] * Lat(t)], Len(tl.w)), tl.d)      \* 'lat' value
 TLVal(tl, k) == IF tl = NoT THEN Absent(k)
-                ELSE CASE k = "time" -> TimeQ(tl) [] k = "phase" -> tl.ph [] k = "bins" -> tl.b
+                ELSE CASE k = "time" -> TimeQ(tl) [] k = "lat" -> LatQ(tl) [] k = "phase" -> tl.ph [] k = "bins" -> tl.b
 \* the token of (observation o, channel c, time label tl)
 Cell(o, c, tl) == IF tl = NoT THEN <<101 * o + 10 * c, 1>>
                   ELSE LET q == TimeTok(tl) IN Norm((101 * o + 10 * c) * q[2] + q[1], q[2])
@@ -119,8 +125,9 @@ Source(s) ==
       tims == IF SrcFlat(s) THEN <<NoT>> ELSE [t \in 1..nt |-> SrcTL(t, nt, kind)] IN
   [kind |-> IF SrcFlat(s) THEN "F" ELSE "T",
    rows |-> [o \in 1..no |-> <<o, NoT>>], cols |-> [c \in 1..nc |-> <<c, NoT>>], tims |-> tims,
-   okeys |-> {"obs", "cond", "sess"} \cup (IF kind >= 4 THEN MissKeys ELSE {}), ckeys |-> {"chan", "roi"},
-   tkeys |-> IF SrcFlat(s) THEN {} ELSE IF kind = 3 THEN {"time", "phase"} ELSE {"time"},
+   okeys |-> {"obs", "cond", "sess"} \cup (IF kind \in {4, 5} THEN MissKeys ELSE {}), ckeys |-> {"chan", "roi"},
+   tkeys |-> IF SrcFlat(s) THEN {} ELSE IF kind = 3 THEN {"time", "phase"}
+             ELSE IF kind = 6 THEN {"time", "lat", "phase"} ELSE {"time"},
    dd |-> NoDD,
    val |-> [o \in 1..no |-> [c \in 1..nc |-> [t \in 1..nt |-> Cell(o, c, tims[t])]]]]
 
@@ -133,8 +140,8 @@ ODesc(ob, k) == [i \in 1..Len(ob.rows) |-> RowVal(ob.rows[i], k)]
 CDesc(ob, k) == [i \in 1..Len(ob.cols) |-> ColVal(ob.cols[i], k)]
 TDesc(ob, k) == [i \in 1..Len(ob.tims) |-> TLVal(ob.tims[i], k)]
 
-ValLt(k, a, b) == IF k = "time" THEN a[1] * b[2] < b[1] * a[2] ELSE a < b
-ValLe(k, a, b) == IF k = "time" THEN a[1] * b[2] <= b[1] * a[2] ELSE a <= b
+ValLt(k, a, b) == IF RatKey(k) THEN a[1] * b[2] < b[1] * a[2] ELSE a < b
+ValLe(k, a, b) == IF RatKey(k) THEN a[1] * b[2] <= b[1] * a[2] ELSE a <= b
 NoDup(s) == Cardinality(Range(s)) = Len(s)
 Const(s) == Cardinality(Range(s)) = 1
 Iota(n) == [k \in 1..n |-> k]
@@ -187,18 +194,23 @@ NestedOddEven(ob, l1, l2) ==
   <<MergeList([i \in 1..Len(p1) |-> oe[i][1]]), MergeList([i \in 1..Len(p1) |-> oe[i][2]])>>
 
 (* ---------------- time binning -------------------------------------------- *)
-BinMembers(ob, bin) == Matching(TDesc(ob, "time"), Range(bin))       \* np.isin(time, bins[k])
-BinTL(ob, bin) ==
-  LET m == BinMembers(ob, bin)  k == Len(m)  nt == Len(ob.tims[m[1]].w)
+\* bin_time(by, bins): by is a NUMERIC time descriptor ('time' or 'lat'); bin k holds the time slices
+\* whose `by` value is one of bins[k] (np.isin: membership, not a range - bins may interleave, skip
+\* samples, differ in size, leave time points out, overlap).  Every numeric time descriptor of a new
+\* slice is the mean over the members (all of them follow from the averaged weights), a label
+\* ('phase') takes the value of the FIRST member, 'bins' records the requested bin.
+BinMembers(ob, by, bin) == Matching(TDesc(ob, by), Range(bin))       \* np.isin(desc[by], bins[k])
+BinTL(ob, by, bin) ==
+  LET m == BinMembers(ob, by, bin)  k == Len(m)  nt == Len(ob.tims[m[1]].w)
       D == ProdTo([j \in 1..k |-> ob.tims[m[j]].d], k)
       w == [t \in 1..nt |-> SumTo([j \in 1..k |-> ob.tims[m[j]].w[t] * (D \div ob.tims[m[j]].d)], k)]
       g == GCD(GcdTo(w, nt), k * D) IN
-  [w |-> [t \in 1..nt |-> w[t] \div g], d |-> (k * D) \div g, b |-> bin, ph |-> 0]
-BinTime(ob, bins) ==
-  [ob EXCEPT !.tims = [k \in 1..Len(bins) |-> BinTL(ob, bins[k])],
-             !.tkeys = {"time", "bins"},
+  [w |-> [t \in 1..nt |-> w[t] \div g], d |-> (k * D) \div g, b |-> bin, ph |-> ob.tims[m[1]].ph]
+BinTime(ob, by, bins) ==
+  [ob EXCEPT !.tims = [k \in 1..Len(bins) |-> BinTL(ob, by, bins[k])],
+             !.tkeys = ob.tkeys \cup {"bins"},
              !.val = [r \in 1..Len(ob.rows) |-> [c \in 1..Len(ob.cols) |-> [k \in 1..Len(bins) |->
-                        LET m == BinMembers(ob, bins[k]) IN
+                        LET m == BinMembers(ob, by, bins[k]) IN
                         QMean([j \in 1..Len(m) |-> ob.val[r][c][m[j]]])]]]]
 
 (* ---------------- temporal -> flat ---------------------------------------- *)
@@ -237,7 +249,7 @@ Producer(op) == op \in {"split_obs", "split_channel", "split_time", "split_merge
                         "bin_time", "time_as_observations", "time_as_channels", "df", "copy",
                         "saveload", "dict"}
 InPlace(op) == op \in {"sort_by"}
-Observer(op) == op \in {"average_by", "tensor"}
+Observer(op) == op \in {"average_by", "tensor", "average"}
 
 \* all the objects a value-returning operation hands back (heap keeps the one selected by o2)
 Parts(h, e) ==
@@ -265,7 +277,7 @@ Enabled(h, e) ==
        [] e.op = "subset_channel" ->
             e.by \in ob.ckeys /\ e.vals # <<>> /\ Matching(CDesc(ob, e.by), Range(e.vals)) # <<>>
        [] e.op = "subset_time" ->      \* vals = <<t_from, t_to>> on an ordered descriptor
-            /\ ob.kind = "T" /\ e.by \in ob.tkeys \cap {"time", "phase"} /\ Len(e.vals) = 2
+            /\ ob.kind = "T" /\ e.by \in ob.tkeys \cap {"time", "lat", "phase"} /\ Len(e.vals) = 2
             /\ \E i \in 1..nt : ValLe(e.by, e.vals[1], TDesc(ob, e.by)[i]) /\ ValLe(e.by, TDesc(ob, e.by)[i], e.vals[2])
        [] e.op = "sort_by" -> e.by \in ob.okeys \ ({"bins"} \cup MissKeys)
        [] e.op = "merge" ->            \* same type, identical channel and time descriptors
@@ -281,11 +293,11 @@ Enabled(h, e) ==
        [] e.op = "nested_odd_even" ->
             /\ e.by \in ob.okeys \ MissKeys /\ e.by2 \in ob.okeys \ MissKeys /\ e.o2 \in {1, 2}
             /\ \A p \in Range(SplitObsParts(ob, e.by)) : Len(PartsSel(ODesc(p, e.by2))) >= 2
-       [] e.op = "bin_time" ->         \* on 'time', the only time descriptor besides 'bins'; no empty bin
-            /\ ob.kind = "T" /\ e.by = "time" /\ ob.tkeys \subseteq {"time", "bins"}
+       [] e.op = "bin_time" ->         \* on a numeric time descriptor; no empty bin
+            /\ ob.kind = "T" /\ e.by \in ob.tkeys /\ RatKey(e.by)
             /\ e.vals # <<>> /\ Len(e.vals) <= MaxTims
-            /\ \A k \in 1..Len(e.vals) : e.vals[k] # <<>> /\ BinMembers(ob, e.vals[k]) # <<>>
-            /\ \A k \in 1..Len(e.vals) : BinTL(ob, e.vals[k]).d <= MaxDen
+            /\ \A k \in 1..Len(e.vals) : e.vals[k] # <<>> /\ BinMembers(ob, e.by, e.vals[k]) # <<>>
+            /\ \A k \in 1..Len(e.vals) : BinTL(ob, e.by, e.vals[k]).d <= MaxDen
        [] e.op = "time_as_observations" ->   \* by names the time axis: one time point per value
             /\ ob.kind = "T" /\ e.by \in ob.tkeys /\ NoDup(TDesc(ob, e.by)) /\ nr * nt <= MaxRows
        [] e.op = "time_as_channels" -> ob.kind = "T" /\ nc * nt <= MaxCols
@@ -295,7 +307,7 @@ Enabled(h, e) ==
        [] e.op = "tensor" ->           \* get_measurements_tensor: equally many observations per value
             /\ ob.kind = "F" /\ e.by \in ob.okeys \ MissKeys
             /\ \A p \in Range(PartsSel(ODesc(ob, e.by))) : Len(p) = Len(PartsSel(ODesc(ob, e.by))[1])
-       [] e.op \in {"copy", "saveload", "dict", "drop"} -> TRUE
+       [] e.op \in {"copy", "saveload", "dict", "drop", "average"} -> TRUE
        [] OTHER -> FALSE
   /\ e.op = "drop" => Cardinality(LiveSet(h)) >= 2
 
@@ -311,7 +323,7 @@ Result(h, e) ==
          SelTims(ob, SelectSeq(Iota(Len(col)), LAMBDA i : ValLe(e.by, e.vals[1], col[i]) /\ ValLe(e.by, col[i], e.vals[2])))
     [] e.op = "sort_by" -> SelRows(ob, StableArgsort(ODesc(ob, e.by), e.by))
     [] e.op = "merge" -> MergeList(<<ob, h[e.o2]>>)
-    [] e.op = "bin_time" -> BinTime(ob, e.vals)
+    [] e.op = "bin_time" -> BinTime(ob, e.by, e.vals)
     [] e.op = "time_as_observations" -> TimeAsObs(ob)
     [] e.op = "time_as_channels" -> TimeAsChan(ob)
     [] e.op = "df" -> DfRoundTrip(ob, e.by)
@@ -328,6 +340,9 @@ AvgOut(ob, by) ==
   LET col == ODesc(ob, by)  u == Uniq(col)  ps == PartsSel(col) IN
   [g \in 1..Len(u) |-> [label |-> u[g], n |-> Len(ps[g]),
                         mean |-> [c \in 1..Len(ob.cols) |-> QMean([j \in 1..Len(ps[g]) |-> ob.val[ps[g][j]][c][1]])]]]
+\* average_dataset: the mean over all observations, per channel (and time slice)
+AverageOut(ob) ==
+  [c \in 1..Len(ob.cols) |-> [k \in 1..Len(ob.tims) |-> QMean([r \in 1..Len(ob.rows) |-> ob.val[r][c][k]])]]
 TensorOut(ob, by) ==
   LET col == ODesc(ob, by)  u == Uniq(col)  ps == PartsSel(col) IN
   [g \in 1..Len(u) |-> [label |-> u[g],
@@ -355,6 +370,7 @@ OutOf(h, e) ==
   IF MultiPart(e.op) THEN LET ps == Parts(h, e) IN [i \in 1..Len(ps) |-> Strip(ps[i])]
   ELSE IF e.op = "average_by" THEN AvgOut(h[e.o], e.by)
   ELSE IF e.op = "tensor" THEN TensorOut(h[e.o], e.by)
+  ELSE IF e.op = "average" THEN AverageOut(h[e.o])
   ELSE <<>>
 OutObs(h, e) ==
   IF MultiPart(e.op) THEN LET ps == Parts(h, e) IN [i \in 1..Len(ps) |-> Obs(ps[i])]
@@ -373,13 +389,16 @@ ValSeqs(S, n) == IF ArgLevel >= 2 THEN SeqsUpTo(S, n) ELSE Trim(S)
 ArgVals(col, k) == Range(col) \cup (IF ArgLevel >= 2 /\ IntKey(k) THEN {99} ELSE {})
 SortedVals(S, k) == SetToSortSeq(S, LAMBDA a, b : ValLt(k, a, b))
 \* bins: ascending lists of existing time values
-BinSets(ob) == {SortedVals(T, "time") : T \in SUBSET Range(TDesc(ob, "time")) \ {{}}}
-BinArgs(ob) ==
-  LET tv == SortedVals(Range(TDesc(ob, "time")), "time")  m == Len(tv) IN
-  IF ArgLevel >= 2 THEN SeqsUpTo(BinSets(ob), BinLen)
+BinSets(ob, by) == {SortedVals(T, by) : T \in SUBSET Range(TDesc(ob, by)) \ {{}}}
+BinArgs(ob, by) ==
+  LET tv == SortedVals(Range(TDesc(ob, by)), by)  m == Len(tv) IN
+  IF ArgLevel >= 2 THEN SeqsUpTo(BinSets(ob, by), BinLen)
        \cup {[k \in 1..m |-> <<tv[m + 1 - k]>>]}                       \* singletons, reversed
   ELSE {<<tv>>, [k \in 1..m |-> <<tv[m + 1 - k]>>]}
-       \cup (IF m >= 2 THEN {<<<<tv[1], tv[2]>>, <<tv[m]>>>>} ELSE {})
+       \cup (IF m >= 2 THEN {<<<<tv[1], tv[2]>>, <<tv[m]>>>>} ELSE {})  \* unequal sizes (overlap if m = 2)
+       \cup (IF m >= 3 THEN {<<<<tv[1], tv[3]>>, <<tv[2]>>>>,            \* interleaved
+                             <<<<tv[1], tv[m]>>>>} ELSE {})              \* skips samples, leaves some out
+       \cup (IF m >= 4 THEN {<<<<tv[1], tv[3]>>, <<tv[2], tv[4]>>>>} ELSE {})
 TimeRanges(ob, by) ==
   LET V == Range(TDesc(ob, by)) IN
   IF ArgLevel >= 2 THEN {<<a, b>> : a \in V, b \in V}
@@ -393,18 +412,19 @@ ObjEvents(h, o, f) ==
     [] f = "splitmerge" -> {Ev("split_merge", o, 0, by, "", <<>>) : by \in ob.okeys}
     [] f = "subobs" -> UNION {{Ev("subset_obs", o, 0, by, "", v) : v \in ValSeqs(ArgVals(ODesc(ob, by), by), 2)} : by \in ob.okeys}
     [] f = "subchan" -> UNION {{Ev("subset_channel", o, 0, by, "", v) : v \in ValSeqs(ArgVals(CDesc(ob, by), by), 2)} : by \in ob.ckeys}
-    [] f = "subtime" -> UNION {{Ev("subset_time", o, 0, by, "", v) : v \in TimeRanges(ob, by)} : by \in ob.tkeys \cap {"time", "phase"}}
+    [] f = "subtime" -> UNION {{Ev("subset_time", o, 0, by, "", v) : v \in TimeRanges(ob, by)} : by \in ob.tkeys \cap {"time", "lat", "phase"}}
     [] f = "sort" -> {Ev("sort_by", o, 0, by, "", <<>>) : by \in ob.okeys}
     [] f = "merge" -> {Ev("merge", o, o2, "", "", <<>>) : o2 \in LiveSet(h)}
     [] f = "oddeven" -> {Ev("odd_even", o, k, by, "", <<>>) : by \in ob.okeys, k \in {1, 2}}
     [] f = "nested" -> {Ev("nested_odd_even", o, k, b[1], b[2], <<>>) : b \in ob.okeys \X ob.okeys, k \in {1, 2}}
-    [] f = "bin" -> IF ob.kind = "T" /\ "time" \in ob.tkeys
-                    THEN {Ev("bin_time", o, 0, "time", "", b) : b \in BinArgs(ob)} ELSE {}
+    [] f = "bin" -> IF ob.kind = "T"
+                    THEN UNION {{Ev("bin_time", o, 0, by, "", b) : b \in BinArgs(ob, by)} : by \in {k \in ob.tkeys : RatKey(k)}}
+                    ELSE {}
     [] f = "conv" -> {Ev("time_as_observations", o, 0, by, "", <<>>) : by \in ob.tkeys}
                      \cup {Ev("time_as_channels", o, 0, "", "", <<>>)}
     [] f = "byops" -> {Ev("df", o, 0, by, "", <<>>) : by \in ob.ckeys}
                       \cup {Ev(op, o, 0, by, "", <<>>) : op \in {"average_by", "tensor"}, by \in ob.okeys}
-    [] f = "plain" -> {Ev(op, o, 0, "", "", <<>>) : op \in {"copy", "saveload", "dict", "drop"}}
+    [] f = "plain" -> {Ev(op, o, 0, "", "", <<>>) : op \in {"copy", "saveload", "dict", "drop", "average"}}
 Families == {"split", "splitmerge", "subobs", "subchan", "subtime", "sort", "merge", "oddeven",
              "nested", "bin", "conv", "byops", "plain"}
 
@@ -532,16 +552,22 @@ ClauseOk(h, e, h2) ==
        /\ \A i \in 1..(n - 1) : ValLe(e.by, col[p[i]], col[p[i + 1]])
        /\ \A i \in 1..(n - 1) : col[p[i]] = col[p[i + 1]] => p[i] < p[i + 1]
        /\ SamePartOnAxis(ob, res, 1, p) /\ res.dd = ob.dd
-  \* BinMeans: each new time slice is the mean over exactly the slices whose time is in the bin
+  \* BinMeans: each new time slice is the mean over exactly the slices whose `by` value is in the
+  \* bin (membership: a slice between two members of the bin does not belong to it); so is every
+  \* numeric time descriptor; a label takes the value of the first member; nothing else changes
   /\ e.op = "bin_time" =>
        /\ Len(res.tims) = Len(e.vals) /\ res.rows = ob.rows /\ res.cols = ob.cols
+       /\ res.okeys = ob.okeys /\ res.ckeys = ob.ckeys /\ res.dd = ob.dd /\ res.kind = ob.kind
+       /\ res.tkeys = ob.tkeys \cup {"bins"}
        /\ \A k \in 1..Len(e.vals) :
-            LET M == {j \in 1..Len(ob.tims) : TDesc(ob, "time")[j] \in Range(e.vals[k])}
+            LET M == {j \in 1..Len(ob.tims) : TDesc(ob, e.by)[j] \in Range(e.vals[k])}
                 ms == SetToSortSeq(M, LAMBDA x, y : x < y) IN
             /\ M # {}
             /\ \A r \in 1..Len(ob.rows) : \A c \in 1..Len(ob.cols) :
                  res.val[r][c][k] = QMean([j \in 1..Len(ms) |-> ob.val[r][c][ms[j]]])
-            /\ TimeQ(res.tims[k]) = QMean([j \in 1..Len(ms) |-> TDesc(ob, "time")[ms[j]]])
+            /\ \A key \in {x \in ob.tkeys : RatKey(x)} :
+                 TLVal(res.tims[k], key) = QMean([j \in 1..Len(ms) |-> TDesc(ob, key)[ms[j]]])
+            /\ "phase" \in ob.tkeys => res.tims[k].ph = ob.tims[ms[1]].ph
             /\ res.tims[k].b = e.vals[k]
   \* ConversionBijection: every cell survives with its observation, channel and time label, for
   \* every shape (also 1 observation / 1 channel / 1 time point)
